@@ -115,6 +115,8 @@ func scriptedHandler2(script, pre []WrOp, probe *handlerProbe) http.Handler {
 				if f, ok := w.(http.Flusher); ok {
 					f.Flush()
 				}
+			case "abort": // what httputil.ReverseProxy does when the backend dies mid-body
+				panic(http.ErrAbortHandler)
 			}
 		}
 	})
@@ -156,7 +158,7 @@ func wrExchange(h http.Handler, probe *handlerProbe, c WrCase) wrView {
 	srv := httptest.NewServer(h)
 	defer srv.Close()
 	if c.Pre != nil {
-		rawExchange(srv.Listener.Addr().String(), buildRequest("GET", "/pre", "wr.local", nil, nil, ""), "GET", 3*time.Second)
+		rawExchange(srv.Listener.Addr().String(), buildRequest("GET", "/pre", "wr.local", [][2]string{{"Accept-Encoding", "gzip"}}, nil, ""), "GET", 3*time.Second)
 		probe.mu.Lock()
 		probe.called, probe.read = false, 0
 		probe.mu.Unlock()
@@ -433,7 +435,9 @@ func genWrCase(g *Rng) WrCase {
 		c.Script = append(c.Script, WrOp{K: "head", Code: 500})
 	}
 	if g.Chance(25) { // an earlier exchange through the same chain: oversized, flushed, or ordinary
-		switch g.Intn(3) {
+		switch g.Intn(4) {
+		case 3: // aborted mid-body (compressible content): nothing of it may leak into the next exchange
+			c.Pre = []WrOp{{K: "set", Key: 1, Val: 0}, {K: "head", Code: 500}, {K: "write", N: 300}, {K: "abort"}}
 		case 0:
 			c.Pre = []WrOp{{K: "write", N: 3 * limit}, {K: "write", N: 5}}
 		case 1:
